@@ -123,6 +123,20 @@ func runC08(c *core.Ctx) int {
 		jobs = append(jobs, job{b, c08Case{Variant: v, Form: "offline"}})
 		jobs = append(jobs, job{b, c08Case{Variant: v, Form: "disable-all-online-by-name"}})
 	}
+	// two Prometheus servers (prom, promb): switching ONE instance of an online check off by name must not change
+	// what --offline does to the others
+	if c.Replay == "" {
+		b := mkBase(16)
+		bases = append(bases, b)
+		for _, n := range onlineCheckNames {
+			jobs = append(jobs, job{b, c08Case{Variant: 16, Name: n, Form: "offline+flag-disabled-instance"}})
+			if serverBoundChecks[n] {
+				// (only checks whose instance is identified as name(server))
+				jobs = append(jobs, job{b, c08Case{Variant: 16, Name: n, Form: "flag-disabled-instance"}})
+			}
+		}
+		jobs = append(jobs, job{b, c08Case{Variant: 16, Form: "offline"}})
+	}
 	// base runs
 	for _, b := range bases {
 		r0, res := c08Run(c, b, "", nil)
@@ -165,6 +179,24 @@ func runC08(c *core.Ctx) int {
 		case "checks-enabled":
 			extra = fmt.Sprintf("checks {\n  enabled = [%q]\n}\n", n)
 			want = multiset(b.r0, func(r core.DReport) bool { return r.Reporter == n || notChecks(r) })
+		case "offline+flag-disabled-instance":
+			// --disabled N(prom) names one instance; --offline still removes every online check
+			global = []string{"--disabled", n + "(prom)", "--offline"}
+			want = multiset(b.r0, func(r core.DReport) bool {
+				for _, o := range onlineCheckNames {
+					if r.Reporter == o {
+						return false
+					}
+				}
+				return true
+			})
+		case "flag-disabled-instance":
+			// without --offline only the named instance goes: reports of N made by the other server stay, every other
+			// reporter is untouched; N's own reports are compared by the server they name
+			global = []string{"--disabled", n + "(prom)"}
+			want = multiset(b.r0, func(r core.DReport) bool {
+				return r.Reporter != n || !strings.Contains(r.Details+fmt.Sprint(r.Diagnostics), "`prom` Prometheus server")
+			})
 		case "offline+flag-enabled", "offline+flag-disabled":
 			// flags combine: --offline removes every online check whatever else is on the command line
 			isOnline := func(name string) bool {
@@ -223,7 +255,7 @@ func runC08(c *core.Ctx) int {
 		// documented override: rule{enable=[N]} beats the global disabled list, so for such names the
 		// global forms say nothing about N's own reports (don't-care); every other reporter must be unchanged
 		switch cs.Form {
-		case "offline+flag-enabled", "offline+flag-disabled":
+		case "offline+flag-enabled", "offline+flag-disabled", "offline+flag-disabled-instance":
 			// same don't-care as for the plain offline forms: reports of checks named in a rule{enable} list
 			keepW := map[string]int{}
 			for k, v := range want {
